@@ -51,6 +51,7 @@ type Decision struct {
 	Val    uint64
 	Sub    [][]Decision // merged call: complete local traces of its feasible paths
 	IsSub  bool
+	Uniq   bool // uniqueness probe: Taken = the path condition implies the single value Val
 }
 
 // Config is the per-harness bound set.
@@ -65,6 +66,7 @@ type Config struct {
 	StopOnFail    bool
 	Replace       map[string]string // function (full name) -> harness function (name in the target package) executed instead
 	Merge         map[string]bool // functions executed in merge mode (all callee paths folded into one state)
+	UniqDepth     int             // >0: terms at least this deep that reach an index, a shift count or a scalar variable are replaced by their value when the path condition implies a single value
 }
 
 func DefaultConfig() Config {
@@ -122,6 +124,7 @@ type Shared struct {
 	Deadline    time.Time
 	mergeMu     sync.Mutex
 	MergeStats  map[string][2]int // function -> {merged calls, outcomes folded}
+	Target      *ssa.Package      // package under test (holds the harness functions)
 }
 
 func (sh *Shared) noteMerge(fn string, n int) {
@@ -180,6 +183,7 @@ type Exec struct {
 	inInit      bool
 	foreign     map[*ssa.Global]*Obj
 	ufApps      map[string][]ufApp
+	uniqNo      map[*sym.Term]bool
 }
 
 func (e *Exec) end(kind EndKind, format string, args ...interface{}) {
@@ -217,6 +221,9 @@ func (e *Exec) stackString() string {
 }
 
 func shortFile(f string) string {
+	if RepoPrefix != "" && strings.HasPrefix(f, RepoPrefix) {
+		return f[len(RepoPrefix):]
+	}
 	if i := strings.Index(f, "/repo/"); i >= 0 {
 		return f[i+6:]
 	}
@@ -289,6 +296,9 @@ func (e *Exec) feasible(c *sym.Term) sym.Result {
 }
 
 var CheckNanos, OneShots int64
+
+// RepoPrefix is stripped from file names in stacks (set by the driver).
+var RepoPrefix string
 var ForkSites sync.Map // debugging: "fn#block" -> *int64
 
 func (e *Exec) noteFork() {
@@ -466,6 +476,66 @@ func (e *Exec) concretize(t *sym.Term) uint64 {
 		e.addPC(c)
 		return v
 	}
+}
+
+// uniq replaces t by a constant when the path condition implies a single value for it
+// (sound: pc => t == v is checked by the solver). It keeps control-like quantities such
+// as bit counts and buffer indices concrete on paths that determine them.
+func (e *Exec) uniq(t *sym.Term) *sym.Term {
+	d := e.Sh.Cfg.UniqDepth
+	if d <= 0 || t == nil || t.IsConst() || t.Arr || t.W == 0 || t.W > 64 || int(t.D) < d || e.scope != nil || e.inInit {
+		return t
+	}
+	if e.uniqNo == nil {
+		e.uniqNo = map[*sym.Term]bool{}
+	}
+	if e.uniqNo[t] {
+		return t
+	}
+	if e.pos < len(e.prefix) {
+		dd := e.prefix[e.pos]
+		if !dd.Uniq {
+			panic("gossa: decision trace out of sync (uniq)")
+		}
+		e.pos++
+		e.trace = append(e.trace, dd)
+		if dd.Taken {
+			return sym.BV(dd.Val, t.W)
+		}
+		e.uniqNo[t] = true
+		return t
+	}
+	e.pos++
+	var v uint64
+	have := false
+	if e.mdlOK {
+		if x, ok := sym.Eval(t, e.mdl, e.mdlMemo); ok {
+			v, have = x, true
+		}
+	}
+	if !have {
+		e.flush()
+		e.res.Queries++
+		probe := sym.Var(fmt.Sprintf("uniq!%d", t.ID), t.W)
+		r, m := e.S.Check(sym.Eq(probe, t), e.Sh.Cfg.FeasTimeoutMs, append([]*sym.Term{probe}, e.nondets...))
+		if r != sym.Sat {
+			e.trace = append(e.trace, Decision{Uniq: true})
+			e.uniqNo[t] = true
+			return t
+		}
+		v = m[probe.Name]
+		delete(m, probe.Name)
+		e.setModel(m)
+	}
+	r, m := e.feasibleM(sym.Not(sym.Eq(t, sym.BV(v, t.W))))
+	if r == sym.Unsat {
+		e.trace = append(e.trace, Decision{Uniq: true, Taken: true, HasVal: true, Val: v})
+		return sym.BV(v, t.W)
+	}
+	_ = m
+	e.trace = append(e.trace, Decision{Uniq: true})
+	e.uniqNo[t] = true
+	return t
 }
 
 func (e *Exec) model() []NondetVal {
